@@ -174,7 +174,32 @@ func (s *Spec[T]) equal(t T, impl, model Sexp) bool {
 	return impl.String() == model.String()
 }
 
+// inflight journal: the case about to be run on the implementation is written down first, so that an
+// unrecoverable crash of the process (fatal error: out of memory, stack overflow, a runtime throw) still
+// leaves the input that caused it; bin/check turns it into the replay of the violation.
+var (
+	inflightFile *os.File
+	inflightProp string
+)
+
+func journal(what string, t any) {
+	if inflightFile == nil {
+		return
+	}
+	cj, err := json.Marshal(t)
+	if err != nil {
+		return
+	}
+	doc, _ := json.Marshal(map[string]any{"property": inflightProp, "kind": "failing-input",
+		"theorem_or_correspondence": what, "case": json.RawMessage(cj),
+		"message": "the harness process died while the implementation was running this case"})
+	_, _ = inflightFile.Seek(0, 0)
+	_ = inflightFile.Truncate(0)
+	_, _ = inflightFile.Write(doc)
+}
+
 func (s *Spec[T]) runImpl(t T) Sexp {
+	journal(s.What, t)
 	to := s.Timeout
 	if to == 0 {
 		to = 10 * time.Second
